@@ -32,11 +32,16 @@ MAX_SAMPLE_CHARS = 1500
 
 
 def load_known(pid: str) -> list[dict]:
-    path = VERIF / "known_findings.json"
-    if not path.exists():
-        return []
-    data = json.loads(path.read_text())
-    return [f for f in data.get("findings", []) if f.get("property") == pid and f.get("status") == "known"]
+    out: list[dict] = []
+    paths = [VERIF / "known_findings.json", *sorted((VERIF / "known_findings.d").glob("*.json"))]
+    for path in paths:
+        if not path.exists():
+            continue
+        data = json.loads(path.read_text())
+        for f in data.get("findings", []):
+            if f.get("property") == pid and f.get("status") == "known" and f["kind"] not in {o["kind"] for o in out}:
+                out.append(f)
+    return out
 
 
 # ------------------------------------------------------------------------------------------------
